@@ -97,7 +97,9 @@ theorem startIfReady_ok (c : Cfg) (s : State) (id i : Nat) (b : Bool) : EffsOK (
 theorem hStartStage_ok (c : Cfg) (s : State) (id i r : Nat) : EffsOK (hStartStage c s id i r).flatten := by
   unfold hStartStage
   split
-  · intro e he; simp at he
+  · split
+    · effs_tac
+    · intro e he; simp at he
   unfold hStartStageCore
   simp only []
   split
@@ -202,6 +204,10 @@ theorem hSkipStage_ok (c : Cfg) (s : State) (id i : Nat) : EffsOK (hSkipStage c 
   simp only []
   split
   · exact effsOK_nil
+  split
+  · split
+    · effs_tac
+    · exact effsOK_nil
   · effs_tac
     split
     · effs_tac
